@@ -18,7 +18,7 @@ EXTENDS Naturals, Sequences, FiniteSets, TLC
 CONSTANTS StickyDecoder, DoubleSignal
 
 BadClasses == {"garbage", "nonjson", "wrongkind", "unknownid", "idtype", "giant", "blank", "comment",
-               "noresult", "both", "badutf8", "control-repeat", "truncated", "fieldtype"}
+               "noresult", "both", "badutf8", "control-repeat", "truncated", "fieldtype", "noevent"}
 Positions == {"before", "instead", "after"}
 
 VARIABLES bad, pos,        \* the scenario
